@@ -530,7 +530,7 @@ def main():
             'trusted_base': TRUSTED_BASE + getattr(mod, 'TRUSTED_EXTRA', []),
             'print_assumptions': pa, 'forbidden_tokens_found': bad, 'coqchk': coqchk_summary,
             'evaluations': len(cases) * len(seeds) + (recycle_info or {}).get('cases', 0), 'distinct_nontrivial': nontriv,
-            'rule': mod.RULE + (' One extra pass re-runs a sample of the cases with the library objects refilled in place from case to case (object recycling, harness/conv.py): results remembered per object are then stale.' if recycle_info else ''), 'hashseeds': seeds, 'corpus_cases': len(corpus), 'object_recycling_pass': recycle_info,
+            'rule': mod.RULE + (' One extra pass re-runs a sample of the cases with the library objects refilled in place from case to case (object recycling, harness/conv.py): results remembered per object are then stale.' + (' In that pass the PDA closure limit is set to 3 (no PDA is involved in this property, the setting must not matter).' if getattr(mod, 'PDA_FREE', False) else '') + (' In that pass logging is switched on (GambaTools.enable_logging = True), which must not change any result.' if getattr(mod, 'LOG_SAFE', False) else '') if recycle_info else ''), 'hashseeds': seeds, 'corpus_cases': len(corpus), 'object_recycling_pass': recycle_info,
             'structural_layer_only_mismatches': struct_only,
             'known_findings_hit': {k: v[1] for k, v in known_hits.items()},
             'distribution': dist, 'samples': samples,
